@@ -4,6 +4,7 @@ package core
 
 import (
 	"errors"
+	"fmt"
 	"sort"
 
 	"rcproxy/core/pkg/redis"
@@ -44,14 +45,25 @@ func (c *verifRedisConn) Close() error                                          
 // VerifSetInfo installs the INFO oracle.
 func VerifSetInfo(f VerifInfoFunc) { EngineGlobal.ClusterNodes.redisWrapper = &verifWrapper{f} }
 
-// VerifStartClusterLoop starts the production refresh goroutine; the channel is closed when it returns.
-func VerifStartClusterLoop() <-chan struct{} {
-	done := make(chan struct{})
+// VerifLoopStatus reports how the refresh goroutine ended (if it did).
+type VerifLoopStatus struct {
+	Done  chan struct{}
+	Panic string // non-empty when the goroutine panicked (in production the process dies)
+}
+
+// VerifStartClusterLoop starts the production refresh goroutine; Done is closed when it returns.
+func VerifStartClusterLoop() *VerifLoopStatus {
+	st := &VerifLoopStatus{Done: make(chan struct{})}
 	go func() {
+		defer func() {
+			if r := recover(); r != nil {
+				st.Panic = fmt.Sprint(r)
+			}
+			close(st.Done)
+		}()
 		EngineGlobal.ClusterNodes.loopClusterNodes()
-		close(done)
 	}()
-	return done
+	return st
 }
 
 // VerifClusterSend offers a probe reply to the refresh loop the way eventloop.sread does.
